@@ -11,14 +11,18 @@ Classes added (each is a whole family of inputs, drawn at random or swept comple
                    self-closed element has no body, so the markup after it counts; and names that merely LOOK like
                    raw-text or void names (`scripts`, `x-style`, `Script`, `STYLE`, `noscript`, `image`, `BR`, `hr2`)
                    occur as ordinary paired / self-closed elements with element children.
-  NAME ALPHABET    tag and attribute names over the whole name alphabet the matcher documents ("limited XML spec",
-                   emmet/html_matcher/utils.py: NameStartChar / NameChar of https://www.w3.org/TR/xml/#NT-Name
-                   restricted to code points <= U+1FFF).  The ranges are hard-coded below from the XML
-                   recommendation (5th edition, productions [4] and [4a]), NOT read from the library.  Random names
-                   mix code points of all blocks in the ranges (letters, dependent vowel signs, tone marks, digits
-                   of other scripts, unassigned code points: the grammar is by code point, not by Unicode category),
-                   and `alphabet_sweep_docs` puts EVERY code point of the alphabet into a tag name and an attribute
-                   name, at the first position (when the grammar allows it there) and at a later position.
+  NAME ALPHABET    tag and attribute names over the whole XML name alphabet (NameStartChar / NameChar of
+                   https://www.w3.org/TR/xml/#NT-Name, the specification emmet/html_matcher/utils.py cites; all
+                   planes: CJK, Hangul, U+200C / U+200D, astral letters included).  The ranges are hard-coded below
+                   from the XML recommendation (5th edition, productions [4] and [4a]), NOT read from the library.
+                   Random names mix code points of all blocks in the ranges (letters, dependent vowel signs, tone
+                   marks, digits of other scripts, unassigned code points: the grammar is by code point, not by
+                   Unicode category), and `alphabet_sweep_docs` puts code points of the alphabet into a tag name and
+                   an attribute name, at the first position (when the grammar allows it there) and at a later
+                   position: EVERY code point up to U+218F, and of the long ranges above it (U+2C00.., CJK / Hangul,
+                   U+F900.., U+FDF0.., the astral planes U+10000..U+EFFFF) the first and last 0x40 code points,
+                   both neighbours of every 0x1000 border and of every plane border, and one code point per 0x100
+                   block (`sweep_code_points`).
 """
 import html_gen as hg
 from html_gen import Attr, Doc, Elem, words
@@ -29,12 +33,12 @@ XML_NAME_START_RANGES = [
     (0x370, 0x37D), (0x37F, 0x1FFF), (0x200C, 0x200D), (0x2070, 0x218F), (0x2C00, 0x2FEF), (0x3001, 0xD7FF),
     (0xF900, 0xFDCF), (0xFDF0, 0xFFFD), (0x10000, 0xEFFFF)]
 XML_NAME_EXTRA_RANGES = [(0x2D, 0x2E), (0x30, 0x39), (0xB7, 0xB7), (0x300, 0x36F), (0x203F, 0x2040)]
-# the matcher documents a LIMITED alphabet: the productions above cut at U+1FFF
+# Up to py-emmet 280bebd^ the matcher cut the productions at U+1FFF ("Limited XML spec", inherited from the UTF-16
+# code units of the JavaScript original): elements and attributes named with CJK, Hangul, U+200C / U+200D or astral
+# letters were not recognised.  Repaired (known_findings.d/xmlnames.json); the switch stays for experiments with the
+# old alphabet.
 LIMIT = 0x1FFF
-# Names with code points beyond U+1FFF (CJK, Hangul, U+200C, astral planes) are XML names too, but the matcher's own
-# documentation excludes them ("Limited XML spec"); on the unchanged library such elements are not recognised at all
-# (see the final report of the strengthening round).  Switch on to explore them.
-NAMES_BEYOND_LIMIT = False
+NAMES_BEYOND_LIMIT = True
 
 
 def _clip(ranges, limit):
@@ -62,8 +66,16 @@ def _blocks(ranges, size=0x80):
     point inside it reaches every script of a long range equally often"""
     out = []
     for a, b in ranges:
-        if b > 0xFFFF:
-            b = min(b, a + 0x3FF)         # a sample of the astral range is enough
+        if b - a > 0x3000:
+            # a long range (CJK + Hangul, the astral planes): its first and last blocks, the blocks at both sides of
+            # every plane border inside it, and every 0x40th block in between
+            keep = {a // size, b // size}
+            for plane in range((a >> 16) + 1, (b >> 16) + 1):
+                keep.update([(plane << 16) // size - 1, (plane << 16) // size])
+            keep.update(range(a // size, b // size + 1, 0x40 if b <= 0xFFFF else 0x400))
+            for k in sorted(keep):
+                out.append((max(a, k * size), min(b, k * size + size - 1)))
+            continue
         x = a
         while x <= b:
             y = min(b, (x // size) * size + size - 1)
@@ -261,13 +273,25 @@ def gen_document_x(rng, xml=False, names='plain', specials=0.12, max_nodes=30, m
 
 
 # ---------------------------------------------------------------- exhaustive sweep of the name alphabet
-def alphabet_code_points():
-    out = []
+def sweep_code_points():
+    """the code points of the alphabet that the sweep puts into names: every one of a range of at most 0x2000 code
+    points; of a longer range the first and last 0x40, both neighbours of every multiple of 0x1000 (plane borders among
+    them) and one per 0x100 block"""
+    out = set()
     for a, b in name_start_ranges() + name_extra_ranges():
-        if b > 0xFFFF:
-            b = a + 0xFF
-        out.extend(range(a, b + 1))
-    return sorted(set(out))
+        if b - a <= 0x2000:
+            out.update(range(a, b + 1))
+            continue
+        out.update(range(a, a + 0x40))
+        out.update(range(b - 0x3F, b + 1))
+        for x in range((a // 0x1000 + 1) * 0x1000, b, 0x1000):
+            out.update([x - 1, x])
+        out.update(range(a, b + 1, 0x100 if b <= 0xFFFF else 0x1000))
+    return sorted(out)
+
+
+def alphabet_code_points():
+    return sweep_code_points()
 
 
 def alphabet_sweep_docs(per_doc=4):
